@@ -15,6 +15,7 @@ import (
 	"context"
 	"encoding/binary"
 	"fmt"
+	"math/rand"
 	"os"
 	"os/exec"
 	"path/filepath"
@@ -25,6 +26,8 @@ import (
 	storethehash "github.com/ipld/go-storethehash"
 	"github.com/ipld/go-storethehash/store"
 	"github.com/ipld/go-storethehash/store/filecache"
+	"github.com/ipld/go-storethehash/store/index"
+	"github.com/ipld/go-storethehash/store/types"
 	mhprimary "github.com/ipld/go-storethehash/store/primary/multihash"
 	"github.com/ipld/go-storethehash/store/verifhook"
 
@@ -629,6 +632,123 @@ var scenarios = []scenario{
 			return false, "gc: " + err.Error()
 		}
 		return expect(r, key(9), val('1', 18), true)
+	}},
+	{"C08-unreadable-neighbour", "C08", "an index Put / Update / Remove made while the primary files cannot be opened either fails and leaves every entry as it was, or succeeds and touches only the addressed key (150 generated key sets sharing prefixes in one bucket)", func() (bool, string) {
+		rng := rand.New(rand.NewSource(8))
+		refused := 0
+		for trial := 0; trial < 150; trial++ {
+			bad := func() string {
+				dir := tmp("c08f")
+				defer os.RemoveAll(dir)
+				dataPath, indexPath := filepath.Join(dir, "d"), filepath.Join(dir, "i")
+				prim, err := mhprimary.Open(dataPath, nil, filecache.New(0), 0) // no file cache: every read opens the file
+				must(err)
+				defer prim.Close()
+				idx, err := index.Open(context.Background(), indexPath, prim, 8, 1<<20, 0, 0, filecache.New(16))
+				must(err)
+				defer idx.Close()
+				mh := func(d []byte) []byte { m, e := multihash.Encode(d, multihash.SHA2_256); must(e); return m }
+				n := 3 + rng.Intn(5)
+				seen := map[string]bool{}
+				var keys [][]byte
+				for len(keys) < n {
+					d := []byte{0x51, 0, 0, 0, 0, 0, 0, 0}
+					for i := 1; i < 8; i++ {
+						d[i] = byte(1 + rng.Intn(2))
+					}
+					if !seen[string(d)] {
+						seen[string(d)] = true
+						keys = append(keys, d)
+					}
+				}
+				loc := map[string]types.Block{}
+				for _, d := range keys[:n-1] {
+					blk, e := prim.Put(mh(d), []byte("v"+string(d)))
+					must(e)
+					must(idx.Put(d, blk))
+					loc[string(d)] = blk
+					if rng.Intn(3) == 0 {
+						_, e = prim.Flush()
+						must(e)
+					}
+				}
+				// two flushes with a record of another bucket in between: the records leave both write pools of the primary
+				_, err = prim.Flush()
+				must(err)
+				other := []byte{0x61, 9, 9, 9, 9, 9, 9, 9}
+				ob, err := prim.Put(mh(other), []byte("other"))
+				must(err)
+				must(idx.Put(other, ob))
+				_, err = prim.Flush()
+				must(err)
+				if rng.Intn(2) == 0 {
+					_, err = idx.Flush()
+					must(err)
+				}
+				newKey := keys[n-1]
+				newBlk, err := prim.Put(mh(newKey), []byte("new"))
+				must(err)
+				victim := keys[rng.Intn(n-1)]
+				updBlk, err := prim.Put(mh(victim), []byte("upd"))
+				must(err)
+				op := rng.Intn(4)
+				// the fault: no primary file can be opened while the operation runs
+				files, _ := filepath.Glob(dataPath + ".[0-9]*")
+				for _, f := range files {
+					must(os.Rename(f, f+".away"))
+				}
+				var opErr error
+				what := ""
+				switch op {
+				case 0, 1:
+					what = fmt.Sprintf("Put of new key %x", newKey)
+					opErr = idx.Put(newKey, newBlk)
+					if opErr == nil {
+						loc[string(newKey)] = newBlk
+					}
+				case 2:
+					what = fmt.Sprintf("Update of key %x", victim)
+					opErr = idx.Update(victim, updBlk)
+					if opErr == nil {
+						loc[string(victim)] = updBlk
+					}
+				case 3:
+					what = fmt.Sprintf("Remove of key %x", victim)
+					var removed bool
+					removed, opErr = idx.Remove(victim)
+					if opErr == nil && removed {
+						delete(loc, string(victim))
+					}
+				}
+				for _, f := range files {
+					must(os.Rename(f+".away", f))
+				}
+				if opErr != nil {
+					refused++
+				}
+				for _, d := range keys {
+					got, found, e := idx.Get(d)
+					want, present := loc[string(d)]
+					if e != nil {
+						return fmt.Sprintf("trial %d: after %s (err=%v) Get(%x) fails: %v", trial, what, opErr, d, e)
+					}
+					if present && (!found || got != want) {
+						return fmt.Sprintf("trial %d: after %s (err=%v) key %x resolves to %v (found=%v), its location is %v", trial, what, opErr, d, got, found, want)
+					}
+					if !present && found {
+						// an absent key may resolve to the location of another key, never to one that holds it
+						if k, e := prim.GetIndexKey(got); e == nil && bytes.Equal(k, d) {
+							return fmt.Sprintf("trial %d: after %s (err=%v) absent key %x resolves to a record holding it", trial, what, opErr, d)
+						}
+					}
+				}
+				return ""
+			}()
+			if bad != "" {
+				return false, bad
+			}
+		}
+		return true, fmt.Sprintf("%d of 150 operations were refused because of the fault", refused)
 	}},
 	{"C13-freelist-exact", "C13", "sequential overwrite/remove/new-key/rejected puts produce exactly the superseded blocks", func() (bool, string) {
 		dir := tmp("c13")
